@@ -30,8 +30,13 @@ Proof. intro H. induction l; cbn; [reflexivity|]. rewrite H, IHl. reflexivity. Q
 Lemma limoff_0' {A} (l : list A) : limoff 0 0 l = l.
 Proof. reflexivity. Qed.
 
+(** the schema of a one-shard dataset: the fields some stored point carries *)
+Definition schema (d : dataset) (fld : fieldkey) : bool := existsb (fun p => isSome (fieldval fld p)) d.
+Lemma eval_schema d q : eval d q = evalk spec_mode (schema d) 0 d q.
+Proof. reflexivity. Qed.
+
 (** * 1. LIMIT / OFFSET *)
-Lemma series_rows_no_limits q d k : series_rows spec_mode (no_limits q) d k = series_rows spec_mode q d k.
+Lemma series_rows_no_limits kn q d k : series_rows spec_mode kn (no_limits q) d k = series_rows spec_mode kn q d k.
 Proof.
   destruct q. unfold no_limits.
   cbv beta iota delta [series_rows is_raw raw_rows raw_pts raw_row agg_rows call_rows call_pts qualifies in_range tmin tmax cond_holds
@@ -45,7 +50,7 @@ Proof. destruct q. unfold no_limits, cand_keys, qualifies, in_range, tmin, tmax,
 
 (** the series chosen by SLIMIT/SOFFSET with their complete rows, in output order *)
 Definition chosen_series (d : dataset) (q : query) : result :=
-  let unl := filter nonempty (map (fun k => (k, series_rows spec_mode q d k)) (cand_keys q d)) in
+  let unl := filter nonempty (map (fun k => (k, series_rows spec_mode (schema d) q d k)) (cand_keys q d)) in
   let c := slim q unl in if q_desc q then rev c else c.
 
 Definition cut_rows (q : query) (r : result) : result :=
@@ -53,7 +58,7 @@ Definition cut_rows (q : query) (r : result) : result :=
 
 Lemma eval_unfold d q : eval d q = cut_rows q (chosen_series d q).
 Proof.
-  unfold eval, evalg, cut_rows, chosen_series. cbn [m_slimit_index m_limit_per_call spec_mode negb].
+  rewrite eval_schema. unfold evalk, cut_rows, chosen_series. cbn [m_slimit_index m_limit_per_call spec_mode negb].
   rewrite orb_true_r. reflexivity.
 Qed.
 
@@ -67,7 +72,7 @@ Qed.
 Lemma chosen_no_limits d q : chosen_series d (no_limits q) = chosen_series d q.
 Proof.
   unfold chosen_series. rewrite cand_keys_no_limits.
-  rewrite (map_ext _ (fun k => (k, series_rows spec_mode q d k))) by (intro; rewrite series_rows_no_limits; reflexivity).
+  rewrite (map_ext _ (fun k => (k, series_rows spec_mode (schema d) q d k))) by (intro; rewrite series_rows_no_limits; reflexivity).
   destruct q; reflexivity.
 Qed.
 
@@ -92,9 +97,9 @@ Definition no_slimit (q : query) : query :=
 
 (** all result series with their complete rows, ascending by tag values *)
 Definition all_series (d : dataset) (q : query) : result :=
-  filter nonempty (map (fun k => (k, series_rows spec_mode q d k)) (cand_keys q d)).
+  filter nonempty (map (fun k => (k, series_rows spec_mode (schema d) q d k)) (cand_keys q d)).
 
-Lemma series_rows_no_slimit q d k : series_rows spec_mode (no_slimit q) d k = series_rows spec_mode q d k.
+Lemma series_rows_no_slimit kn q d k : series_rows spec_mode kn (no_slimit q) d k = series_rows spec_mode kn q d k.
 Proof.
   destruct q. unfold no_slimit.
   cbv beta iota delta [series_rows is_raw raw_rows raw_pts raw_row agg_rows call_rows call_pts qualifies in_range tmin tmax cond_holds
@@ -107,7 +112,7 @@ Proof. destruct q. unfold no_slimit, cand_keys, qualifies, in_range, tmin, tmax,
 Lemma all_series_no_slimit d q : all_series d (no_slimit q) = all_series d q.
 Proof.
   unfold all_series. rewrite cand_keys_no_slimit.
-  rewrite (map_ext _ (fun k => (k, series_rows spec_mode q d k))) by (intro; rewrite series_rows_no_slimit; reflexivity).
+  rewrite (map_ext _ (fun k => (k, series_rows spec_mode (schema d) q d k))) by (intro; rewrite series_rows_no_slimit; reflexivity).
   reflexivity.
 Qed.
 
@@ -189,23 +194,77 @@ Proof.
 Qed.
 Lemma call_rows_time_filter md q d alone c k : call_rows md q (time_filter q d) alone c k = call_rows md q d alone c k.
 Proof. unfold call_rows. destruct c as [fn fld]. rewrite call_pts_time_filter. reflexivity. Qed.
-Lemma series_rows_time_filter md q d k : series_rows md q (time_filter q d) k = series_rows md q d k.
+(** [agg_rows] depends on the dataset only through the rows of its columns *)
+Definition agg_rows_of (cr : bool -> aggfn * fieldkey -> list row) (md : mode) (kn : fieldkey -> bool) (q : query) : list row :=
+  let sel := q_sel q in
+  let alone := match sel with
+               | (fn, fld) :: r => is_selector fn && forallb (fun c => call_eqb c (fn, fld)) r
+               | [] => false end in
+  let cut := if m_limit_per_call md then limoff (q_limit q) (q_offset q) else (fun l => l) in
+  let cols := map (fun c => if kn (snd c) || negb (typed_by_arg (fst c)) then (fst c, cut (cr alone c)) else (Raw, [])) sel in
+  let times := dedup Z.eqb (isort (time_leb (q_desc q)) (flat_map (fun c => map fst (snd c)) cols)) in
+  join_rows (q_fill q) cols (map (fun _ => VNull) cols) times.
+Lemma agg_rows_as_of md kn q d k : agg_rows md kn q d k = agg_rows_of (fun a c => call_rows md q d a c k) md kn q.
+Proof. reflexivity. Qed.
+Lemma agg_rows_of_ext cr cr' kn kn' md q :
+  (forall a c, cr a c = cr' a c) -> (forall f, kn f = kn' f) -> agg_rows_of cr md kn q = agg_rows_of cr' md kn' q.
 Proof.
-  unfold series_rows, raw_rows, agg_rows. rewrite raw_pts_time_filter.
-  rewrite (map_ext (fun c => (fst c, _ (call_rows md q (time_filter q d) _ c k)))
-                   (fun c => (fst c, _ (call_rows md q d _ c k))))
-    by (intro; rewrite call_rows_time_filter; reflexivity).
+  intros H K. unfold agg_rows_of. cbv zeta.
+  set (alone := match q_sel q with [] => false | _ => _ end).
+  set (cut := if m_limit_per_call md then _ else _).
+  rewrite (map_ext (fun c => if kn (snd c) || negb (typed_by_arg (fst c)) then (fst c, cut (cr alone c)) else (Raw, []))
+                   (fun c => if kn' (snd c) || negb (typed_by_arg (fst c)) then (fst c, cut (cr' alone c)) else (Raw, [])))
+    by (intro; rewrite H, K; reflexivity).
   reflexivity.
 Qed.
 
-Theorem where_time_commutes d q : eval (time_filter q d) q = eval d q.
+Lemma series_rows_time_filter md kn q d k : series_rows md kn q (time_filter q d) k = series_rows md kn q d k.
 Proof.
-  unfold eval, evalg. cbn [m_slimit_index spec_mode].
+  unfold series_rows, raw_rows. rewrite raw_pts_time_filter, !agg_rows_as_of.
+  rewrite (agg_rows_of_ext _ (fun a c => call_rows md q d a c k) kn kn); auto.
+  intros. apply call_rows_time_filter.
+Qed.
+
+(** for a FIXED schema the time bounds commute with everything else *)
+Theorem where_time_commutes_schema kn d q : evalk spec_mode kn 0 (time_filter q d) q = evalk spec_mode kn 0 d q.
+Proof.
+  unfold evalk. cbn [m_slimit_index spec_mode].
   rewrite cand_keys_time_filter.
-  rewrite (map_ext (fun k => (k, series_rows spec_mode q (time_filter q d) k)) (fun k => (k, series_rows spec_mode q d k)))
+  rewrite (map_ext (fun k => (k, series_rows spec_mode kn q (time_filter q d) k)) (fun k => (k, series_rows spec_mode kn q d k)))
     by (intro; rewrite series_rows_time_filter; reflexivity).
   reflexivity.
 Qed.
+
+Lemma series_rows_kn_ext md kn kn' q d k : (forall f, kn f = kn' f) -> series_rows md kn q d k = series_rows md kn' q d k.
+Proof.
+  intro H. unfold series_rows. rewrite !agg_rows_as_of.
+  rewrite (agg_rows_of_ext _ (fun a c => call_rows md q d a c k) kn kn'); auto.
+Qed.
+Lemma evalk_kn_ext md kn kn' split d q : (forall f, kn f = kn' f) -> evalk md kn split d q = evalk md kn' split d q.
+Proof.
+  intro H. unfold evalk.
+  rewrite (map_ext (fun k => (k, series_rows md kn q _ k)) (fun k => (k, series_rows md kn' q _ k)))
+    by (intro; rewrite (series_rows_kn_ext md kn kn' _ _ _ H); reflexivity).
+  reflexivity.
+Qed.
+
+(** whole evaluator: the points outside the time bounds matter only through the schema (a field
+    carried only by out-of-range points still exists) *)
+Theorem where_time_commutes d q :
+  (forall f, schema (time_filter q d) f = schema d f) -> eval (time_filter q d) q = eval d q.
+Proof.
+  intro H. rewrite !eval_schema. rewrite (evalk_kn_ext _ _ _ _ _ _ H). apply where_time_commutes_schema.
+Qed.
+
+(** ... and without that hypothesis the equation fails: g exists only outside the bounds *)
+Lemma where_time_schema_needed :
+  let d := [mkpt 1 1 1000000000 (Some 1) None; mkpt 1 1 30000000000 None (Some 5)] in
+  let q := {| q_sel := [(Max, Ff); (Min, Fg)]; q_cond := None; q_min_incl := true; q_min := 0; q_max_incl := false;
+              q_max := 10000000000; q_every := 5000000000; q_goffset := 0; q_gtags := []; q_fill := FValue 2;
+              q_desc := false; q_limit := 0; q_offset := 0; q_slimit := 0; q_soffset := 0 |} in
+  eval d q = [([], [(0, [VInt 1; VInt 2]); (5000000000, [VInt 2; VInt 2])])]
+  /\ eval (time_filter q d) q = [([], [(0, [VInt 1; VNull]); (5000000000, [VInt 2; VNull])])].
+Proof. split; vm_compute; reflexivity. Qed.
 
 (** * 3. GROUP BY time partitions the time line *)
 Ltac Zify.zify_post_hook ::= Z.div_mod_to_equations.
@@ -504,7 +563,7 @@ Proof. destruct q. unfold set_desc, cand_keys, qualifies, in_range, tmin, tmax, 
 (** lifting a per-series reversal to the whole result (no LIMIT/OFFSET/SLIMIT/SOFFSET) *)
 Lemma desc_lift d q :
   q_limit q = 0%nat -> q_offset q = 0%nat -> q_slimit q = 0%nat -> q_soffset q = 0%nat ->
-  (forall k, series_rows spec_mode (set_desc q true) d k = rev (series_rows spec_mode (set_desc q false) d k)) ->
+  (forall k, series_rows spec_mode (schema d) (set_desc q true) d k = rev (series_rows spec_mode (schema d) (set_desc q false) d k)) ->
   eval d (set_desc q true) = rev_result (eval d (set_desc q false)).
 Proof.
   intros Hl Ho Hsl Hso H.
